@@ -7,7 +7,7 @@ from ..progen import gen_program, profile
 
 ID = "C04"
 PREFIX = ('c04:',)
-PROFILE = profile(scope=22, cancel=16, shield=8, catch=12, group=8, spawn=8, wait=5, forever=4, ext=3, native_ext=12, wrap=12, **{'raise': 5}, patterns={'double_cancel': 1, 'native_in_cancelled_scope': 2, '_chance': 15})
+PROFILE = profile(scope=22, cancel=16, shield=8, catch=12, group=8, spawn=8, wait=5, forever=4, ext=3, native_ext=12, wrap=12, **{'raise': 5}, patterns={'double_cancel': 1, 'native_in_cancelled_scope': 2, 'late_shield_after_observation': 2, 'native_at_group_join': 2, '_chance': 25})
 RULE = ('Hypothesis-generated scope trees with arbitrary shield flags (toggled while active by the host), all orders of cancel() calls, exception groups mixing AnyIO cancellations with Boom reaching scope exits, native task.cancel() of children; non-trivial = an inner scope left with a cancellation in flight while it or an enclosing scope is cancelled/shielded; distinct = distinct canonical JSON')
 ASSUMPTIONS = ["reference semantics (mirror) evaluated on public attributes cancel_called/shield of every scope on the chain; the only private access is fetching a child's handle scope object at its first step", 'every indefinite wait sits in a harness guard scope cancelled after 40 cycles', "asyncio's FIFO ready queue is not permuted; schedules vary through generated delays, cancel placement, external loop callbacks and loop configuration"]
 TECHNIQUE = 'Hypothesis-generated programs compared with an independent reference semantics (effective cancellation / absorb rule) evaluated on the observable history'
